@@ -15,7 +15,8 @@ EXPLANATION = (
     "directions); hence objective >= scaled L1 distance (+ sparsity term) with equality attainable, so an optimal assignment is a closest flow "
     "among flows within the bounds; the bound ub = w_max*|E| loses no optimum (C16_bound_loses_no_optimum, MefBound.v: contraction to a circulation, "
     "cut argument, lowering along simple cycles), so an optimal assignment is a closest flow among ALL non-negative flows with conservation where "
-    "required (C16_optimal_solution_is_closest_flow = the full statement, relative to the solver specification; integral flows for int weights); "
+    "required (C16_optimal_solution_is_closest_flow = the full statement, relative to the solver specification; integral flows for int weights, "
+    "which loses nothing on integral weights: C16_integral_optimum_is_real_optimum, MefIntegral.v); "
     "the corrected graph has the same node and edge lists (C16_same_graph); the few-values model contains all rows of the first model plus the "
     "budget row (C16_few_values_within_budget); the E1 comparison is decided by the verified checker (C16_lp_comparison_is_verified). "
     "Premises of the full statement are ONE extracted verified boolean (mef_domain_b, C16_optimal_solution_is_closest_flow_checked) run on every instance.")
